@@ -331,3 +331,37 @@ def spellings_and_replay(run, prog, w):
         run.check(ok, 'D5', 'check_block_signatures[replay for another block]' if not ok else f'replay: {nvals} validator(s)',
                   f'{nvals} validator(s): genuine set for block A {first}; the same signatures presented for block B in the same process: {second} (they are not signatures of B)', w)
         run.evaluations += 1
+    # ---- another validator set in a later call: members of the set used before are strangers to this one
+    st = dict(valid=set(), asked=[])
+    it = mk(prog, st)
+    it.CONCRETE_HASH = True
+    pks, nodes, ids = setup(it, st, 6, [5] * 6)
+    R1, F1, R2, F2 = b'\x1a' * 32, b'\x1b' * 32, b'\x1c' * 32, b'\x1d' * 32
+
+    def signed(by, R, F, base):
+        msg = K(SIGN_MAGIC + R + F)
+        out = []
+        for j in by:
+            sg = Sym(f'S{base}_{j}', ty='bytes', n=64, key=('sig', base, j))
+            st['valid'].add((repr(it.vkey(K(pks[j]))), repr(it.vkey(msg)), repr(it.vkey(sg))))
+            d = DictV({'node_id_short': K(ids[j].hex()), 'signature': sg})
+            d.keyobj = {k: K(k) for k in d.d}
+            out.append(d)
+        return out
+    V1, V2 = [0, 1, 2], [3, 4, 5]
+    try:
+        it.invoke(f, [ListV([nodes[j] for j in V1]), ListV(signed(V1, R1, F1, 1)), blk(it, R1, F1)], {})
+        first = 'accepted'
+    except RaiseEx as e:
+        first = f'rejected ({e.kind})'
+    outcomes = {}
+    for name, by in (('signed by the three members of the earlier set only', V1), ('two genuine members plus one member of the earlier set', [3, 4, 0])):
+        try:
+            it.invoke(f, [ListV([nodes[j] for j in V2]), ListV(signed(by, R2, F2, 2)), blk(it, R2, F2)], {})
+            outcomes[name] = 'accepted'
+        except RaiseEx as e:
+            outcomes[name] = f'rejected ({e.kind})'
+    ok = first == 'accepted' and all(v != 'accepted' for v in outcomes.values())
+    run.check(ok, 'D5', 'check_block_signatures[validators of an earlier call]' if not ok else 'history: a second validator set',
+              f'set {{0,1,2}} verified for block 1: {first}; then block 2 with the set {{3,4,5}}: ' + '; '.join(f'{k}: {v}' for k, v in outcomes.items()) + ' (a signer outside the given set is unknown, whatever was verified before)', w)
+    run.evaluations += 3
